@@ -27,10 +27,42 @@ type hookTask struct {
 }
 
 type hookScenario struct {
-	upFail []bool // per context
+	upFail []bool   // per context: some up command fails
+	upCmds [][]bool // per context: one entry per up command (true = that command fails); nil = a single command
 	tasks  []hookTask
 	par    bool   // tasks started simultaneously
 	via    string // "runner" | "sched" | "cli"
+	form   string // cli only: "" (taskctl T...), "run" (taskctl run T...), "runtask" (taskctl run task T...), "runpipeline"
+	ghost  bool   // cli only, several targets: an unknown name follows the last target
+}
+
+// the up commands of context c: the first one writes the token cN.up, the k-th one cN.upK
+func (s hookScenario) upList(c int, trace string) []string {
+	cmds := s.upCmds
+	if cmds == nil || cmds[c] == nil {
+		return []string{hookCmd(trace, fmt.Sprintf("c%d.up", c), s.upFail[c])}
+	}
+	var out []string
+	for k, f := range cmds[c] {
+		tok := fmt.Sprintf("c%d.up", c)
+		if k > 0 {
+			tok = fmt.Sprintf("c%d.up%d", c, k+1)
+		}
+		out = append(out, hookCmd(trace, tok, f))
+	}
+	return out
+}
+
+func (s hookScenario) upTokens(c int) []string {
+	n := 1
+	if s.upCmds != nil && s.upCmds[c] != nil {
+		n = len(s.upCmds[c])
+	}
+	out := []string{fmt.Sprintf("c%d.up", c)}
+	for k := 2; k <= n; k++ {
+		out = append(out, fmt.Sprintf("c%d.up%d", c, k))
+	}
+	return out
 }
 
 func (s hookScenario) line() string {
@@ -42,7 +74,14 @@ func (s hookScenario) line() string {
 	for i, t := range s.tasks {
 		ts[i] = fmt.Sprintf("%d%c%s%s%s", t.ctx, t.cond, map[bool]string{true: "b", false: "-"}[t.before], map[bool]string{true: "a", false: "-"}[t.after], map[bool]string{true: "F", false: "o"}[t.fail])
 	}
-	return fmt.Sprintf("hooks up=%s tasks=%s par=%v via=%s", strings.Join(up, ""), strings.Join(ts, ","), s.par, s.via)
+	extra := ""
+	if s.upCmds != nil {
+		extra += fmt.Sprintf(" upcmds=%v", s.upCmds)
+	}
+	if s.form != "" || s.ghost {
+		extra += fmt.Sprintf(" form=%s ghost=%v", s.form, s.ghost)
+	}
+	return fmt.Sprintf("hooks up=%s tasks=%s par=%v via=%s%s", strings.Join(up, ""), strings.Join(ts, ","), s.par, s.via, extra)
 }
 
 func hookCmd(trace, tok string, fail bool) string {
@@ -78,9 +117,13 @@ func (s hookScenario) buildTask(i int, trace string) *task.Task {
 func (s hookScenario) yaml(trace string) string {
 	var b strings.Builder
 	b.WriteString("contexts:\n")
-	for c, f := range s.upFail {
-		fmt.Fprintf(&b, "  c%d:\n    up: [%q]\n    down: [%q]\n    before: [%q]\n    after: [%q]\n", c,
-			hookCmd(trace, fmt.Sprintf("c%d.up", c), f), hookCmd(trace, fmt.Sprintf("c%d.down", c), false),
+	for c := range s.upFail {
+		var ups []string
+		for _, u := range s.upList(c, trace) {
+			ups = append(ups, fmt.Sprintf("%q", u))
+		}
+		fmt.Fprintf(&b, "  c%d:\n    up: [%s]\n    down: [%q]\n    before: [%q]\n    after: [%q]\n", c,
+			strings.Join(ups, ", "), hookCmd(trace, fmt.Sprintf("c%d.down", c), false),
 			hookCmd(trace, fmt.Sprintf("c%d.before", c), false), hookCmd(trace, fmt.Sprintf("c%d.after", c), false))
 	}
 	b.WriteString("tasks:\n")
@@ -140,6 +183,22 @@ func runHookScenario(s hookScenario) hookObs {
 				targets = append(targets, fmt.Sprintf("t%d", i))
 			}
 		}
+		multi := len(targets) > 1
+		if s.ghost && multi {
+			targets = append(targets, "nosuchtarget")
+		}
+		switch s.form {
+		case "run":
+			targets = append([]string{"run"}, targets...)
+		case "runtask":
+			if targets[0] != "p" {
+				targets = append([]string{"run", "task"}, targets...)
+			}
+		case "runpipeline":
+			if targets[0] == "p" {
+				targets = []string{"run", "pipeline", "p"}
+			}
+		}
 		res := runTaskctl(dir, nil, 30*time.Second, append([]string{"-c", filepath.Join(dir, "c.yaml"), "--output", "raw"}, targets...)...)
 		if res.panicked || res.timedOut {
 			obs.crashed = fmt.Sprintf("exit=%d timeout=%v %s", res.exit, res.timedOut, lastLines(res.stderr, 2))
@@ -149,7 +208,7 @@ func runHookScenario(s hookScenario) hookObs {
 			// the CLI reports only the overall status; derive the per-task error from the definition
 			obs.runErr[i] = (t.fail && t.cond != 'f') || (t.ctx >= 0 && s.upFail[t.ctx])
 		}
-		if len(targets) > 1 {
+		if multi {
 			stopped := false
 			for i := range s.tasks {
 				obs.executed[i] = !stopped
@@ -161,9 +220,9 @@ func runHookScenario(s hookScenario) hookObs {
 		return obs
 	}
 	ctxs := map[string]*runner.ExecutionContext{}
-	for c, f := range s.upFail {
+	for c := range s.upFail {
 		ctxs[fmt.Sprintf("c%d", c)] = runner.NewExecutionContext(nil, "", variables.NewVariables(),
-			[]string{hookCmd(trace, fmt.Sprintf("c%d.up", c), f)}, []string{hookCmd(trace, fmt.Sprintf("c%d.down", c), false)},
+			s.upList(c, trace), []string{hookCmd(trace, fmt.Sprintf("c%d.down", c), false)},
 			[]string{hookCmd(trace, fmt.Sprintf("c%d.before", c), false)}, []string{hookCmd(trace, fmt.Sprintf("c%d.after", c), false)})
 	}
 	r, err := runner.NewTaskRunner(runner.WithContexts(ctxs))
@@ -176,7 +235,9 @@ func runHookScenario(s hookScenario) hookObs {
 	for i := range s.tasks {
 		tasks[i] = s.buildTask(i, trace)
 	}
-	func() {
+	finished := make(chan struct{})
+	go func() {
+		defer close(finished)
 		defer func() {
 			if p := recover(); p != nil {
 				obs.crashed = fmt.Sprint("PANIC: ", p)
@@ -232,11 +293,17 @@ func runHookScenario(s hookScenario) hookObs {
 			r.Finish()
 		}
 	}()
+	select {
+	case <-finished:
+	case <-time.After(30 * time.Second):
+		// a run that never returns (e.g. a lock taken twice): report it, leave the goroutine behind
+		return hookObs{runErr: make([]bool, len(s.tasks)), executed: obs.executed, trace: readHookTrace(trace), crashed: "HANG: the runs did not return within 30s"}
+	}
 	obs.trace = readHookTrace(trace)
 	return obs
 }
 
-var hookTok = regexp.MustCompile(`[ct][0-9]+\.(?:up|down|before|after|cond|cmd)`)
+var hookTok = regexp.MustCompile(`[ct][0-9]+\.(?:up[23]?|down|before|after|cond|cmd)`)
 
 // concurrent `echo x >> file` may interleave the text and the newline of two writers: tokenise by pattern
 func readHookTrace(path string) []string {
@@ -275,8 +342,15 @@ func hookVerdict(s hookScenario, o hookObs) (string, string) {
 			}
 			continue
 		}
-		if count[cn+".up"] != 1 {
-			return fmt.Sprintf("context %s: up ran %d times, expected exactly once", cn, count[cn+".up"]), "c14-up-count"
+		lastUp := -1
+		for k, tok := range s.upTokens(c) {
+			if count[tok] != 1 {
+				return fmt.Sprintf("context %s: up command %d ran %d times, expected exactly once", cn, k+1, count[tok]), "c14-up-count"
+			}
+			if first[tok] < lastUp {
+				return fmt.Sprintf("context %s: up command %d ran before the one listed before it", cn, k+1), "c14-up-order"
+			}
+			lastUp = last[tok]
 		}
 		if count[cn+".down"] != 1 {
 			if s.via == "cli" {
@@ -292,7 +366,7 @@ func hookVerdict(s hookScenario, o hookObs) (string, string) {
 				tok := tn + part
 				if count[tok] > 0 {
 					ran = true
-					if first[tok] < last[cn+".up"] {
+					if first[tok] < lastUp {
 						return fmt.Sprintf("%s ran before up of %s completed", tok, cn), "c14-up-order"
 					}
 					if last[tok] > first[cn+".down"] {
@@ -312,7 +386,7 @@ func hookVerdict(s hookScenario, o hookObs) (string, string) {
 			}
 		}
 		for _, h := range []string{".before", ".after"} {
-			if count[cn+h] > 0 && first[cn+h] < last[cn+".up"] {
+			if count[cn+h] > 0 && first[cn+h] < lastUp {
 				return fmt.Sprintf("%s%s ran before up completed", cn, h), "c14-up-order"
 			}
 			if count[cn+h] > 0 && last[cn+h] > first[cn+".down"] {
@@ -368,6 +442,34 @@ func genHookScenarios(tier string, rng *rand.Rand) []hookScenario {
 			}
 		}
 	}
+	// contexts with several up commands, failing at every position (all of them run; any failure fails the start-up)
+	for _, via := range []string{"runner", "sched", "cli"} {
+		for _, ups := range [][]bool{{true, false}, {false, true}, {true, true}, {true, false, true}, {false, true, false}, {false, false, false}} {
+			for _, par := range []bool{false, true} {
+				any := false
+				for _, f := range ups {
+					any = any || f
+				}
+				out = append(out, hookScenario{upFail: []bool{any}, upCmds: [][]bool{ups}, via: via, par: par,
+					tasks: []hookTask{{ctx: 0, cond: 'n', before: true, after: true}, {ctx: 0, cond: 'n', after: true}}})
+			}
+		}
+	}
+	// every way of naming the targets on the command line, with a failing target and with an unknown name
+	for _, form := range []string{"", "run", "runtask", "runpipeline"} {
+		for _, par := range []bool{false, true} {
+			for _, failAt := range []int{-1, 0, 1} {
+				for _, ghost := range []bool{false, true} {
+					sc := hookScenario{upFail: []bool{false}, via: "cli", form: form, par: par, ghost: ghost,
+						tasks: []hookTask{{ctx: 0, cond: 'n', before: true}, {ctx: 0, cond: 'n', after: true}, {ctx: 0, cond: 'n'}}}
+					if failAt >= 0 {
+						sc.tasks[failAt].fail = true
+					}
+					out = append(out, sc)
+				}
+			}
+		}
+	}
 	n := 60
 	if tier == "thorough" {
 		n = 600
@@ -375,8 +477,25 @@ func genHookScenarios(tier string, rng *rand.Rand) []hookScenario {
 	for k := 0; k < n; k++ {
 		nc := 1 + rng.Intn(3)
 		s := hookScenario{upFail: make([]bool, nc), par: rng.Intn(2) == 0, via: []string{"runner", "runner", "sched", "cli"}[rng.Intn(4)]}
+		if s.via == "cli" {
+			s.form = []string{"", "run", "runtask", "runpipeline"}[rng.Intn(4)]
+			s.ghost = rng.Intn(4) == 0
+		}
 		for c := range s.upFail {
 			s.upFail[c] = rng.Intn(5) == 0
+		}
+		if rng.Intn(2) == 0 {
+			s.upCmds = make([][]bool, nc)
+			for c := range s.upCmds {
+				m := 1 + rng.Intn(3)
+				s.upCmds[c] = make([]bool, m)
+				if s.upFail[c] {
+					s.upCmds[c][rng.Intn(m)] = true
+					if rng.Intn(2) == 0 {
+						s.upCmds[c][rng.Intn(m)] = true
+					}
+				}
+			}
 		}
 		nt := 1 + rng.Intn(8)
 		for i := 0; i < nt; i++ {
